@@ -30,6 +30,9 @@ class KernelBudget(BaseException):
     that the library's `except Exception` handlers cannot turn it into an ordinary error and carry on)"""
 
 
+core.NEVER_SWALLOW.extend([KernelBudget, ThreadKill])
+
+
 class Proc:
     def __init__(self, name):
         self.name = name
